@@ -56,12 +56,26 @@ type Live struct {
 // through constants, negation, boolean ==/!= and phis (a phi takes the join of the values
 // flowing in over *live* edges, so `x := a || b; if !x` is followed precisely); every other
 // condition is delegated to atom; when atom does not know it both edges stay live.
-func LiveUnder(fn *ssa.Function, atom AtomEval) *Live {
-	l := &Live{Fn: fn, Blocks: map[*ssa.BasicBlock]bool{}, Edges: map[Edge]bool{}, atom: atom}
+func LiveUnder(fn *ssa.Function, atom AtomEval) *Live { return LiveUnderBlocked(fn, atom, nil) }
+
+// LiveUnderBlocked is LiveUnder on the CFG without the given edges. Removing the incoming edges of
+// a phi that carry other values restricts the analysis to the executions in which a merged
+// variable holds one particular definition ("the entry that was found in THIS index").
+func LiveUnderBlocked(fn *ssa.Function, atom AtomEval, blocked map[Edge]bool) *Live {
 	if len(fn.Blocks) == 0 {
+		return &Live{Fn: fn, Blocks: map[*ssa.BasicBlock]bool{}, Edges: map[Edge]bool{}, atom: atom}
+	}
+	return LiveFrom(fn, fn.Blocks[0], atom, blocked)
+}
+
+// LiveFrom is LiveUnderBlocked started at block start instead of the function entry: what can
+// execute from the point where a fact became true (a value was obtained) onwards.
+func LiveFrom(fn *ssa.Function, start *ssa.BasicBlock, atom AtomEval, blocked map[Edge]bool) *Live {
+	l := &Live{Fn: fn, Blocks: map[*ssa.BasicBlock]bool{}, Edges: map[Edge]bool{}, atom: atom}
+	if len(fn.Blocks) == 0 || start == nil {
 		return l
 	}
-	l.Blocks[fn.Blocks[0]] = true
+	l.Blocks[start] = true
 	for changed := true; changed; {
 		changed = false
 		for _, b := range fn.Blocks {
@@ -84,6 +98,9 @@ func LiveUnder(fn *ssa.Function, atom AtomEval) *Live {
 			}
 			for _, s := range take {
 				e := Edge{b, s}
+				if blocked[e] {
+					continue
+				}
 				if !l.Edges[e] {
 					l.Edges[e] = true
 					changed = true
